@@ -18,16 +18,6 @@ variable {F : Type} [Scalar F]
 omit [Scalar F] in
 theorem WF.pos {s : FastStochastic F} (h : WF s) : 0 < s.period := h.pmin ▸ h.min.pos
 
-/-- sequencing of two steps that cannot fail: if the first step succeeds with a result satisfying
-    `P` and the continuation succeeds on every such result, the whole succeeds.  Used with the
-    components' `next_total`, whose input is found by unification: it is never written down. -/
-theorem bind_total {α β : Type} {o : Option α} {f : α → Option β} {P : α → Prop} {Q : β → Prop}
-    (h : ∃ r, o = some r ∧ P r) (k : ∀ r, P r → ∃ q, f r = some q ∧ Q q) :
-    ∃ q, o.bind f = some q ∧ Q q := by
-  obtain ⟨r, e, hp⟩ := h
-  subst e
-  exact k r hp
-
 theorem next_total (s : FastStochastic F) (x : F) (h : WF s) :
     ∃ r, s.next x = some r ∧ WF r.1 ∧ r.1.period = s.period := by
   unfold next
